@@ -541,12 +541,14 @@ class _OutputChannel:
         old = M.NATIVE_MODELS.get(key)
 
         def m_write(c, self_, a, k):
-            c.effects.append(("stdout.write", tuple(a), dict(k)))
+            c.effects.append(("stderr.write" if self_ is _sys.stderr else "stdout.write", tuple(a), dict(k)))
             return None
         m_write.always = True
 
         def s_export(c, a, k):
             c.effects.append(("export_to_file", tuple(a), dict(k)))
+            if getattr(I, "export_fails", False):
+                raise PyRaise(OSError, "cannot write")       # exceptional postcondition of open()/write()
             return None
         try:
             E.SUMMARIES[pre + "generate"] = _tag_summary("generate", ["account", "interval"])
@@ -572,10 +574,12 @@ class _OutputChannel:
         kw = dict(data=data)
         if ind:
             kw["indent"] = 2
+        fails = False
         if self.with_path:
             from .c_main import Leaf
             kw["file_path"] = Leaf("file_path")
-        return [w], kw, NS(w=wn, data=data, kind=kind, indent=2 if ind else 4, path=kw.get("file_path"))
+            fails = bool(B.case("export_fails", 2))
+        return [w], kw, NS(w=wn, data=data, kind=kind, indent=2 if ind else 4, path=kw.get("file_path"), export_fails=fails)
 
     def _json_ok(self, v, I):
         """v is json(self, data=<the given non-empty data, else generate() with default arguments>, indent=indent)"""
@@ -618,8 +622,14 @@ class ExportWallet(_OutputChannel):
     with_path = True
 
     def post(self, c, I, out):
-        yield "ensures.returns_none", out.returned and out.value is None
         eff = c.effects
+        if I.export_fails:
+            # a failed write is reported (the OSError reaches the caller: non-zero exit of the CLI) and no wallet
+            # data goes to standard output instead
+            yield "raises.write_failure_is_propagated", out.raised_a(OSError)
+            yield "ensures.write_failure_emits_nothing_on_stdout", not any(e[0] == "stdout.write" for e in eff)
+            return
+        yield "ensures.returns_none", out.returned and out.value is None
         ok = [e[0] for e in eff] == ["export_to_file"]
         yield "ensures.one_export_and_nothing_else", ok
         if ok:
